@@ -120,8 +120,10 @@ def run_ns(case):
     for trial in range(case["trials"]):
         t = Fraction(1695718386)
         pk = [p.copy() for p in pkts]
-        for p in pk:
-            t += Fraction(rng.randrange(1, 10 ** 9), 10 ** 9)
+        for k, p in enumerate(pk):
+            # every third packet follows its predecessor by a few nanoseconds only (distinct instants that a float cannot
+            # tell apart at this epoch)
+            t += Fraction(rng.randrange(1, 120), 10 ** 9) if k % 3 == 2 else Fraction(rng.randrange(1, 10 ** 9), 10 ** 9)
             p.ts = t
         outs = []
         for var in NS_CONTAINERS:
